@@ -194,8 +194,16 @@ def rule_lattice(ctx):
               'bounding range')]
     for f, want, what in specs:
         got = {}
-        for name, fn, node in _bound_assigns(f):
-            got.setdefault(name, (fn, node))
+        from ..util import with_helpers
+        for g in with_helpers(ctx, f):
+            for name, fn, node in _bound_assigns(g):
+                got.setdefault(name, (fn, node))
+        if not got:
+            # nothing recognisable at all: the computation was rewritten in a
+            # form this rule does not read - undecided, not a violation
+            raise AnalysisError('C06.lattice: no min/max bound computation '
+                                'found in %s or its private helpers'
+                                % f.qualname)
         for name, fn in sorted(want.items()):
             rr.instances += 1
             if name not in got:
@@ -334,6 +342,37 @@ def rule_inclusive(ctx):
                         and n.value.args and norm_src(n.value.args[0]) == \
                         norm_src(n.targets[0]):
                     converted.add(n.targets[0].value.id)
+                # X.update(r1=int(...), r2=int(...)) / X.update({'r1': int(..)})
+                if isinstance(n, ast.Call) and isinstance(
+                        n.func, ast.Attribute) and n.func.attr == 'update' and \
+                        isinstance(n.func.value, ast.Name):
+                    def _is_int(v):
+                        return isinstance(v, ast.Call) and isinstance(
+                            v.func, ast.Name) and v.func.id == 'int'
+                    kws = {k.arg: k.value for k in n.keywords if k.arg}
+                    for a in n.args:
+                        if isinstance(a, ast.Dict):
+                            kws.update({k.value: v for k, v in zip(
+                                a.keys, a.values) if isinstance(k, ast.Constant)})
+                    if {'r1', 'r2'} <= set(kws) and all(
+                            _is_int(kws[k]) for k in ('r1', 'r2')):
+                        converted.add(n.func.value.id)
+                # X = {..., 'r1': int(..), 'r2': int(..)} / dict(r1=int(..), ..)
+                if isinstance(n, ast.Assign) and len(n.targets) == 1 and \
+                        isinstance(n.targets[0], ast.Name):
+                    v = n.value
+                    kws = {}
+                    if isinstance(v, ast.Dict):
+                        kws = {k.value: x for k, x in zip(v.keys, v.values)
+                               if isinstance(k, ast.Constant)}
+                    elif isinstance(v, ast.Call) and isinstance(
+                            v.func, ast.Name) and v.func.id == 'dict':
+                        kws = {k.arg: k.value for k in v.keywords if k.arg}
+                    if {'r1', 'r2'} <= set(kws) and all(
+                            isinstance(kws[k], ast.Call) and isinstance(
+                                kws[k].func, ast.Name) and
+                            kws[k].func.id == 'int' for k in ('r1', 'r2')):
+                        converted.add(n.targets[0].id)
 
             def raw_row(e, converted=converted):
                 return isinstance(e, ast.Subscript) and isinstance(
@@ -377,12 +416,30 @@ def rule_inclusive(ctx):
     sp = p.func(RANGES, '_split')
     rr.instances += 1
     it = None
+
+    def _table(v):
+        return isinstance(v, (ast.Tuple, ast.List)) and len(v.elts) >= 1 and \
+            all(isinstance(e, (ast.Tuple, ast.List)) and len(e.elts) == 3
+                for e in v.elts)
+
     for n in own_nodes(sp):
-        if isinstance(n, ast.Assign) and isinstance(n.value, ast.Tuple) and \
-                len(n.value.elts) == 4 and all(
-                isinstance(e, ast.Tuple) and len(e.elts) == 3
-                for e in n.value.elts):
+        if isinstance(n, ast.Assign) and _table(n.value):
             it = n.value
+    if it is None:
+        # the table iterated by the 3-target loop, written inline or kept as
+        # a module-level constant
+        for n in own_nodes(sp):
+            if isinstance(n, ast.For) and isinstance(n.target, ast.Tuple) and \
+                    len(n.target.elts) == 3:
+                if _table(n.iter):
+                    it = n.iter
+                elif isinstance(n.iter, ast.Name):
+                    for v in sp.module.assigns.get(n.iter.id, []):
+                        if _table(v):
+                            it = v
+    if it is None:
+        raise AnalysisError('C06.inclusive: the table of sides that _split '
+                            'iterates over was not found')
     ok = False
     if it is not None:
         try:
@@ -412,12 +469,31 @@ def rule_inclusive(ctx):
                     norm_src(it) if it is not None else '?'), file=RANGES,
                 function='_split', line=sp.lineno)
     # merge adjacency: base.r2 + 1 >= rng.r1 ; base.n2 + 1 == rng.n1
-    for fn, want in (('_merge_raw_update', "int(base['r2']) + 1 >= int(rng['r1'])"),
-                     ('_merge_col_update', "base['n2'] + 1 == rng['n1']")):
+    from ..util import path_conditions
+    for fn, want, key_ in (
+            ('_merge_raw_update', "int({b}['r2']) + 1 >= int({r}['r1'])", 'r2'),
+            ('_merge_col_update', "{b}['n2'] + 1 == {r}['n1']", 'n2')):
         f = p.func(RANGES, fn)
         rr.instances += 1
-        cmps = [norm_src(n) for n in own_nodes(f) if isinstance(n, ast.Compare)]
-        if want in cmps:
+        b_, r_ = (f.params + ['base', 'rng'])[:2]
+        want = want.format(b=b_, r=r_)
+        # the conditions under which the base rectangle is extended
+        cmps = []
+        for n in own_nodes(f):
+            if isinstance(n, ast.Assign) and any(
+                    isinstance(t, ast.Subscript) and isinstance(
+                        t.value, ast.Name) and t.value.id == b_ and
+                    isinstance(t.slice, ast.Constant) and t.slice.value == key_
+                    for t in n.targets):
+                for t, pol in path_conditions(f, n):
+                    conj = t.values if isinstance(t, ast.BoolOp) and \
+                        isinstance(t.op, ast.And) and pol else [t]
+                    for c in conj:
+                        if pol:
+                            cmps.append(norm_src(c))
+        if want in cmps or ('(%s)' % want) in cmps or any(
+                c.replace('(', '').replace(')', '') ==
+                want.replace('(', '').replace(')', '') for c in cmps):
             rr.ok('%s: adjacency test `%s`' % (fn, want), RANGES)
         else:
             rr.fail(key_of(f, 'adjacency test'),
@@ -636,6 +712,37 @@ def rule_nodup(ctx):
     lp = outer[0]
     splits = [c for c in ast.walk(lp) if isinstance(c, ast.Call) and
               call_name(c) == '_split' and c.args]
+    # ... or a private helper that does the splitting: the rectangles it
+    # splits against are one of its parameters, i.e. an argument here
+    from ..util import with_helpers, bound_arg
+    via = []  # (call in the loop, expression the subtrahends are drawn from)
+    if not splits:
+        helpers = {h.name: h for h in with_helpers(ctx, f)[1:]}
+        for c in ast.walk(lp):
+            h = helpers.get(call_name(c)) if isinstance(c, ast.Call) else None
+            if h is None:
+                continue
+            for c2 in own_nodes(h):
+                if not (isinstance(c2, ast.Call) and call_name(c2) == '_split'
+                        and c2.args and isinstance(c2.args[0], ast.Name)):
+                    continue
+                it_ = None
+                for n in own_nodes(h):
+                    if isinstance(n, (ast.For, ast.comprehension)) and any(
+                            isinstance(x, ast.Name) and x.id == c2.args[0].id
+                            for x in ast.walk(n.target)):
+                        it_ = n.iter
+                hp = h.params[1:] if (h.cls is not None and h.params and
+                                      h.params[0] in ('self', 'cls')) else h.params
+                if isinstance(it_, ast.Name) and it_.id in hp:
+                    a = bound_arg(ctx, f, c, hp.index(it_.id), it_.id)
+                    if a is not None:
+                        via.append((c, a))
+                        continue
+                raise AnalysisError('Ranges.__sub__: the helper %s splits '
+                                    'against something that is not one of its '
+                                    'parameters' % h.name)
+        splits = [c for c, _a in via]
     if not splits:
         raise AnalysisError('Ranges.__sub__: no _split call in the loop')
     # names derived from the split results inside the loop
@@ -665,8 +772,8 @@ def rule_nodup(ctx):
                             derived.add(x.id)
                             changed = True
     # the collections the subtrahend rectangle `b` of _split(b, r) is drawn from
-    against = []
-    for c in splits:
+    against = [a for _c, a in via]
+    for c in ([] if via else splits):
         b = c.args[0]
         if not isinstance(b, ast.Name):
             raise AnalysisError('Ranges.__sub__: first argument of _split is '
@@ -705,8 +812,9 @@ def rule_nodup(ctx):
 
 
 def run(ctx):
+    S = ctx.soft
     from .c17 import rule_global
-    shared = rule_global(ctx, 'C06', 'C06.shared', floor=8,
+    shared = S(rule_global, ctx, 'C06', 'C06.shared', floor=8,
                          only=lambda f: f.module.rel == RANGES)
-    return [rule_ops(ctx), rule_lattice(ctx), rule_inclusive(ctx),
-            rule_nodup(ctx), rule_tuple(ctx), rule_value(ctx), shared]
+    return [S(rule_ops, ctx), S(rule_lattice, ctx), S(rule_inclusive, ctx),
+            S(rule_nodup, ctx), S(rule_tuple, ctx), S(rule_value, ctx), shared]
